@@ -152,6 +152,7 @@ type normCfg struct{ minify bool }
 var (
 	commentType  = reflect.TypeOf(syntax.Comment{})
 	stringerType = reflect.TypeOf((*fmt.Stringer)(nil)).Elem()
+	wordPartType = reflect.TypeOf((*syntax.WordPart)(nil)).Elem()
 )
 
 func normDump(n syntax.Node, cfg normCfg) string {
@@ -200,6 +201,32 @@ func normVal(sb *strings.Builder, v reflect.Value, cfg normCfg, dashHdoc bool) {
 		normVal(sb, v.Elem(), cfg, dashHdoc)
 	case reflect.Slice:
 		sb.WriteByte('[')
+		if v.Type().Elem() == wordPartType {
+			// adjacent literals are one literal split by an escaped newline
+			first := true
+			for i := 0; i < v.Len(); i++ {
+				if !first {
+					sb.WriteByte(' ')
+				}
+				first = false
+				if l, ok := v.Index(i).Interface().(*syntax.Lit); ok && l != nil {
+					val := l.Value
+					for i+1 < v.Len() {
+						l2, ok := v.Index(i + 1).Interface().(*syntax.Lit)
+						if !ok || l2 == nil {
+							break
+						}
+						val += l2.Value
+						i++
+					}
+					sb.WriteString("(Lit Value=" + strconv.Quote(normLitValue(val)) + ")")
+					continue
+				}
+				normVal(sb, v.Index(i), cfg, dashHdoc)
+			}
+			sb.WriteByte(']')
+			return
+		}
 		for i := 0; i < v.Len(); i++ {
 			if i > 0 {
 				sb.WriteByte(' ')
